@@ -97,6 +97,8 @@ func runC06One(cs *vrt.Case) {
 	switch k := cs.Idx % 8; {
 	case k == 3 && (cs.Idx/8)%2 == 0:
 		c06Roles(cs, r)
+	case k == 2 && (cs.Idx/8)%2 == 1:
+		c06Broken(cs, r)
 	case k < 4:
 		c06Impl(cs, r)
 	case k < 7:
@@ -198,6 +200,104 @@ func c06Roles(cs *vrt.Case, r *vrt.Rng) {
 		}
 	}
 	cs.Key("roles", name, fmt.Sprint(roles))
+}
+
+// c06Broken: the transport of one party breaks at a PRNG-chosen receive call
+// (sized from a clean run of the same batches). The transfer may fail; but a
+// batch for which BOTH Send and Receive reported success must have delivered
+// exactly the chosen labels - a swallowed transport error would hand the
+// receiver made-up labels.
+func c06Broken(cs *vrt.Case, r *vrt.Rng) {
+	impl := 1 + r.Intn(9)
+	nb := r.Range(1, 3)
+	var wires [][]ot.Wire
+	var flags [][]bool
+	var sizes []int
+	for b := 0; b < nb; b++ {
+		n := 1 + r.Intn(400)
+		sizes = append(sizes, n)
+		wires = append(wires, randWires(r, n))
+		flags = append(flags, choiceVec(r, n, 4))
+	}
+	seed := r.U64()
+	side := r.Intn(2) // whose transport breaks: 0 sender, 1 receiver
+	run := func(failAt int) (got [][]ot.Label, okS, okR []bool, calls int, name string, pan *vrt.PanicInfo) {
+		rr := vrt.NewRng(seed)
+		snd, rcv, nm, _, _ := otImpl(rr, impl)
+		name = nm
+		d := newDuplex(rr, vrt.Pick(rr, []int{0, 1, 2}), false)
+		ios := [2]ot.IO{d.A, d.B}
+		fio := &otx.FaultIO{IO: ios[side], FailAt: failAt}
+		ios[side] = fio
+		got = make([][]ot.Label, nb)
+		okS, okR = make([]bool, nb), make([]bool, nb)
+		ra, rb := runPair(d, func() error {
+			if err := snd.InitSender(ios[0]); err != nil {
+				return err
+			}
+			for b := range wires {
+				w := append([]ot.Wire(nil), wires[b]...)
+				if err := snd.Send(w); err != nil {
+					return err
+				}
+				if impl >= 6 {
+					wires[b] = w // random OT: the sender's labels are an output
+				}
+				okS[b] = true
+			}
+			return nil
+		}, func() error {
+			if err := rcv.InitReceiver(ios[1]); err != nil {
+				return err
+			}
+			for b := range flags {
+				got[b] = make([]ot.Label, len(flags[b]))
+				if err := rcv.Receive(flags[b], got[b]); err != nil {
+					return err
+				}
+				okR[b] = true
+			}
+			return nil
+		})
+		return got, okS, okR, fio.Calls, name, firstPanic(ra, rb)
+	}
+	_, okS, okR, calls, name, pan := run(0)
+	if pan != nil || calls == 0 || !okS[nb-1] || !okR[nb-1] {
+		cs.Inconc("clean OT run for sizing failed")
+		return
+	}
+	for trial := 0; trial < 4; trial++ {
+		failAt := 1 + r.Intn(calls)
+		if trial%2 == 1 {
+			failAt = calls - r.Intn(min(calls, 6)) // the last messages
+		}
+		got, okS, okR, _, _, pan := run(failAt)
+		cs.Evals++
+		cs.Count("transfers_with_a_broken_transport", 1)
+		desc := map[string]any{"kind": "ot.OT, transport breaks", "impl": name, "sizes": sizes, "broken_side": []string{"sender", "receiver"}[side], "fail_at_receive_call": failAt, "of": calls}
+		cs.SetSample(desc)
+		if pan != nil {
+			cs.Count("broken_transport_panics", 1) // not what this property forbids
+			continue
+		}
+		for b := range wires {
+			if !okS[b] || !okR[b] {
+				continue
+			}
+			cs.Count("batches_reported_complete_by_both", 1)
+			for i := range wires[b] {
+				want := wires[b][i].L0
+				if flags[b][i] {
+					want = wires[b][i].L1
+				}
+				if !got[b][i].Equal(want) {
+					cs.Violate("C06|wrong-label|success-across-broken-transport|"+name, fmt.Sprintf("%s: both parties reported success for batch %d although the %s's transport broke at receive call %d of %d, and position %d did not receive the chosen label", name, b, []string{"sender", "receiver"}[side], failAt, calls, i), map[string]any{"case": desc})
+					return
+				}
+			}
+		}
+	}
+	cs.Key("broken", name, fmt.Sprint(sizes, side))
 }
 
 func pickSize(cs *vrt.Case, r *vrt.Rng, max int) int {
